@@ -84,11 +84,14 @@ HELPERS = [
     (21, 'transport-close', 'rules.C20', 'r19', 'C20.R19',
      ['ebusd::FileTransport::close'],
      'after a reconnect the symbols this property works on must not be preceded by stale buffered bytes'),
+    (22, 'chain-prefix', 'rules.C08', 'r7', 'C08.R7',
+     ['ebusd::Message::create'],
+     'a chained definition is found again (and its parts are stored) under the ID prefix common to all its parts'),
 ]
 
 
 # for which further properties a helper matters (besides those whose own module runs it)
-RELEVANT = {'layout': ['C06', 'C07', 'C13', 'C15'], 'crc-table': ['C15'], 'address-classes': ['C02', 'C09'], 'errno': ['C19'], 'parseint-prefix': [], 'overflow-threshold': [], 'transport-accounting': ['C01', 'C02'], 'clock': [], 'recv-deadline': ['C14'], 'tolower': ['C16', 'C18'], 'multiline-field': [], 'file-state': ['C19', 'C16'], 'serial-raw': ['C02', 'C14'], 'arbitration-disarm': ['C03'], 'enhanced-decoder': [], 'minus-sign': [], 'type-table': ['C06', 'C07'], 'entry-reset': ['C02', 'C15'], 'arbitration-pair': ['C03', 'C04', 'C20'], 'arbitration-counter': ['C03', 'C04', 'C20'], 'transport-close': ['C14', 'C01']}
+RELEVANT = {'layout': ['C06', 'C07', 'C13', 'C15'], 'crc-table': ['C15'], 'address-classes': ['C02', 'C09'], 'errno': ['C19'], 'parseint-prefix': [], 'overflow-threshold': [], 'transport-accounting': ['C01', 'C02'], 'clock': [], 'recv-deadline': ['C14'], 'tolower': ['C16', 'C18'], 'multiline-field': [], 'file-state': ['C19', 'C16'], 'serial-raw': ['C02', 'C14'], 'arbitration-disarm': ['C03'], 'enhanced-decoder': [], 'minus-sign': [], 'type-table': ['C06', 'C07'], 'entry-reset': ['C02', 'C15'], 'arbitration-pair': ['C03', 'C04', 'C20'], 'arbitration-counter': ['C03', 'C04', 'C20'], 'transport-close': ['C14', 'C01'], 'chain-prefix': ['C09']}
 
 
 def share(ctx):
